@@ -115,6 +115,19 @@ def toBytes (value length : Int) (signed : Bool) : M Tup :=
     if 0 ≤ value ∧ value < (2 : Int) ^ (8 * k) then pure (natToBE k value.toNat)
     else throw .overflowError
 
+/-- unsigned big-endian value of a tuple of octet values -/
+def natOfBE : Tup → Int → Int
+  | [], acc => acc
+  | b :: rest, acc => natOfBE rest (acc * 256 + b)
+
+/-- `int.from_bytes(bytes(t), 'big', signed=signed)` (the elements of `t` are octet values 0..255: `bytes()` of anything
+    else raises ValueError, which the translated functions never provoke - their tuples come from octet strings) -/
+def fromBytes (t : Tup) (signed : Bool) : Int :=
+  let u := natOfBE t 0
+  match t with
+  | [] => 0
+  | b :: _ => if signed && decide (b ≥ 128) then u - (256 : Int) ^ t.length else u
+
 /-- `a and b`, `a or b` on ints (value semantics) -/
 def andI (a b : Int) : Int := if a != 0 then b else a
 def orI (a b : Int) : Int := if a != 0 then a else b
